@@ -139,6 +139,8 @@ def gen_plan(S, index, tier):
             choices.append(('todict', 1.5))
         if 'rng' in faults:
             choices.append(('rng', 0.7))
+        if 'reuse' in faults and any(e['act'] == 'frag' and e['cfg'].get('losses_handle') for e in events):
+            choices.append(('editlosses', 1.2))
         act = S.weighted(choices) if step > 0 else 'new'
         if act == 'new':
             fh = f'FR{nfr}'
@@ -178,6 +180,10 @@ def gen_plan(S, index, tier):
                            'touch': S.pick(['label', 'number', 'both'])})
         elif act == 'rng':
             events.append({'act': 'rng', 'n': S.randint(1, 99)})
+        elif act == 'editlosses':
+            # the client edits its own shared losses list in place and goes on passing the same object
+            events.append({'act': 'editlosses', 'how': S.randint(0, 2),
+                           'loss': [S.pick(['[ST]', 'K', '[DE]', 'P', 'A', 'E', '[KR]']), S.pick([-18.0, -17.5, -98.0, -10.25, 5.5])]})
     header.update({'mode': 'random', 'faults': faults, 'fault_free': fault_free, 'poisoned': poisoned,
                    'maxlen': cfg['maxlen']})
     return {'header': header, 'pool': pool, 'events': events, 'shared_losses': shared_losses}
@@ -340,6 +346,18 @@ def execute(plan):
                 random.random()
             out.faults['rng'] += 1
             g0 = Env.G.cheap()
+        elif act == 'editlosses':
+            new = tuple(ev['loss'])
+            if ev['how'] == 0 or not run.losses:
+                if all(new[1] != x[1] for x in run.losses):
+                    run.losses.append(new)
+            elif ev['how'] == 1:
+                if all(new[1] != x[1] for x in run.losses[1:]):
+                    run.losses[0] = new
+            elif len(run.losses) > 1:
+                del run.losses[-1]
+            run.losses_nf = N.norm(run.losses)
+            out.faults['owneredit'] += 1
         else:
             raise HarnessError(act)
         if stop:
@@ -433,6 +451,7 @@ def _do_frag(run, ev_i, ev):
     cfg = dict(ev['cfg'])
     if cfg.get('losses_handle'):
         cfg['losses'] = [list(x) for x in run.losses]
+        cfg['losses_single_tuple'] = False     # the shared list is passed as it is now (the client may have edited it)
         out.faults['reuse'] += 1
     poisoned = run.plan['header'].get('poisoned')
     via = ev['via']
